@@ -156,6 +156,8 @@ def source(tokeniser: 'Tokeniser') -> Generator[Flow4Source | Flow6Source, None,
         ip, netmask, offset = data.split('/')
         _prefix_bounds(int(netmask), 128, int(offset))
         yield Flow6Source.make_prefix6(IP.pton(ip), int(netmask), int(offset))
+    else:
+        raise ValueError(f"'{data}' is not a valid source\n  Format: <ipv4>/<length>, <ipv6>/<length> or <ipv6>/<length>/<offset>")
 
 
 def destination(tokeniser: 'Tokeniser') -> Generator[Flow4Destination | Flow6Destination, None, None]:
@@ -180,6 +182,10 @@ def destination(tokeniser: 'Tokeniser') -> Generator[Flow4Destination | Flow6Des
         ip, netmask, offset = data.split('/')
         _prefix_bounds(int(netmask), 128, int(offset))
         yield Flow6Destination.make_prefix6(IP.pton(ip), int(netmask), int(offset))
+    else:
+        raise ValueError(
+            f"'{data}' is not a valid destination\n  Format: <ipv4>/<length>, <ipv6>/<length> or <ipv6>/<length>/<offset>"
+        )
 
 
 # Expressions
@@ -259,6 +265,8 @@ def _generic_condition(tokeniser: 'Tokeniser', klass: Type[FlowConditionT]) -> G
         return number
 
     data: str = tokeniser()
+    if not data:
+        raise ValueError(f"'{klass.NAME}' requires a value")
     AND: int = BinaryOperator.NOP
     if data == '[':
         data = tokeniser()
@@ -444,6 +452,8 @@ def redirect(tokeniser: 'Tokeniser') -> tuple[IP, ExtendedCommunities]:
                 'this format has been deprecated as it does not make sense and it is not supported by other vendors',
             )
 
+        if not (prefix.isascii() and prefix.isdigit() and suffix.isascii() and suffix.isdigit()):
+            raise ValueError(f"'{data}' is not a valid redirect\n  Format: <asn>:<number>, <ip> or [<ipv6>]:<number>")
         asn: int = int(prefix)
         nn_int: int = int(suffix)
 
